@@ -14,6 +14,7 @@ import FgaVerif.Model.WGraph
 import FgaVerif.Model.WAssign
 import FgaVerif.Proofs.WAssignCycle
 import FgaVerif.Proofs.WAssignPost
+import FgaVerif.Proofs.WAssignWild
 import FgaVerif.Spec.WeightsSem
 import FgaVerif.Gen.Atn
 import FgaVerif.Model.Conform
@@ -261,6 +262,10 @@ def opWAssign (m : Sexp) (order : List Sexp) : String :=
       -- hypothesis of Props/C04.algorithm_no_placeholder_on_success / algorithm_edge_rule_on_success: no terminal
       -- type of the graph is named like a cycle placeholder ("R#…")
       if !WAssign.noPHTypesB g then "(placeholder-named-type)" else
+      -- hypotheses of Props/C11.algorithm_wildcards_exact / algorithm_edge_wildcards_on_success: every edge is stored
+      -- under its own source (a theorem for built graphs, built_graph_srcOK) and terminal nodes have no outgoing edges
+      if !WAssign.srcOKB g then "(edge-under-foreign-source)" else
+      if !WAssign.termSinkB g then "(terminal-with-edges)" else
       match WAssign.assignWeights g ord with
       | .error .modelCycle => "(err model-cycle)"
       | .error .tupleCycle => "(err tuple-cycle)"
